@@ -106,6 +106,14 @@ func verifFarmStep(op int) {
 	// paid = floor(rps' * locked) - debt  (cross-multiplied bounds of the floor)
 	rps1 := rule.RewardPerShare.BigInt()
 	e18 := verifPow10(18)
+	// the per-share accumulator grows by the 18-decimal TRUNCATION of released/locked: it never
+	// overstates what was released (otherwise the farmers' truncated claims can exceed the collector)
+	inc := verifSub(rps1, rps.BigInt())
+	verifAssert(verifMul(inc, st.locked.BigInt()).Cmp(verifMul(released, e18)) <= 0, "accumulator never overstates the released rewards")
+	verifAssert(verifMul(verifAdd(inc, one), st.locked.BigInt()).Cmp(verifMul(released, e18)) > 0 || released.Sign() == 0, "accumulator loses less than 1e-18 per share")
+	if released.Sign() == 0 {
+		verifAssert(inc.Sign() == 0, "accumulator unchanged when nothing is released")
+	}
 	if hasA {
 		pending := verifAdd(paid, debt.BigInt()) // = floor(rps1*lockedA/1e18)
 		verifAssert(verifMul(pending, e18).Cmp(verifMul(rps1, lockedA.BigInt())) <= 0 && verifMul(verifAdd(pending, one), e18).Cmp(verifMul(rps1, lockedA.BigInt())) > 0, "paid = floor(rps*locked) - debt")
